@@ -118,5 +118,18 @@ func checkDefs() map[string]CheckDef {
 		BoundsText: "buffer model: each of 20 decoder entry points (perunio BigInt/string/scalars, Balances, SubAlloc, Allocation, State, Params, Transaction, wallet and wire address maps and arrays, Sig, SparseSigs for 0..3 slots, OptApp, OptAppAndData, wire.DecodeMsg, perunio envelope serializer) on a fully symbolic buffer of every length 0..L (L=6 quick, 10 thorough); declared counts are read back from the buffer and compared with the documented limits on success; window model: W=4 arbitrary bytes at every 4-aligned offset of a valid encoding, optionally truncated inside or right after the window (quick: State, Params, Envelope, AuthResponse, LedgerChannelProposalAcc, ChannelUpdateAcc; thorough: all 18 templates incl. all composite messages); protobuf: 8 message kinds x up to 70 deviation sites through the real serializer.Decode",
 		Outside:    []string{"proto.Unmarshal itself", "two simultaneous deviations in one protobuf message", "windows wider than 4 bytes", "memory exhaustion below the allocation bound"},
 	})
+	add(CheckDef{
+		ID: "C16",
+		Obligations: []Obligation{
+			{Pkg: "internal/verifh/c16", Harness: "VerifC16Primitives", Quick: map[string]int{"payload": 6}, Thor: map[string]int{"payload": 8}, TV: 40},
+			{Pkg: "internal/verifh/c16", Harness: "VerifC16Native", Quick: map[string]int{"envKinds": 2}, Thor: map[string]int{"envKinds": 3}, TV: 20},
+			{Pkg: "internal/verifh/c16", Harness: "VerifC16Protobuf", Quick: map[string]int{"envKinds": 2, "firstFrame": 12}, Thor: map[string]int{"envKinds": 3}, Note: "no translator validation: the modelled proto.Marshal output (8-byte handle) has a different length than the real one, so native and modelled chunk choices are not comparable; counterexamples are still replayed natively"},
+		},
+		Assumptions: append(append([]string{}, commonAssumptions...), pbAssume,
+			"open stream: the reader never reports end-of-file and returns 1..min(len(p), remaining) bytes per Read; a Read on an exhausted stream (which would block on a connection) is asserted not to happen",
+			"composition: every read the serializers perform goes through one of the primitive read sites, each of which is checked for all partitions; whole envelopes are checked for a bounded family of chunkings"),
+		BoundsText: "primitive read sites (fixed-size scalars via binary.Read, uint64, [32]byte via io.ReadFull, string, ByteSlice, BigInt): symbolic content, payload up to 6 bytes (8 thorough), every partition of the encoding into chunks (all 2^(n-1)), two following bytes must stay unread; perunio envelope serializer: two consecutive envelopes (Ping, ChannelUpdateAcc [, ChannelProposalRej]) under: all at once, uniform chunks of 1..8 bytes, one cut at every position, two cuts at every position with distance 1..3; protobuf serializer: the same family plus every partition of the first frame and the second frame's length prefix",
+		Outside:    []string{"envelopes longer than a network segment are the same code path but are not executed at that size", "proto.Marshal/Unmarshal", "readers that return 0 bytes without error"},
+	})
 	return defs
 }
